@@ -23,7 +23,7 @@ func init() {
 		Real:           []string{"ext.bodyStream.Read/skipRest/ReleaseBodyStream", "ext.ReadBodyWithStreaming", "req.ReadBodyStream/ContinueReadBodyStream", "utils.ParseChunkSize/SkipCRLF", "http1.Server.Serve", "standard.Conn"},
 		Stub:           []string{"TCP (SimConn)", "peer (scripted actor)", "transporter accept loop (stub)", "clock (synctest)"},
 		Assumptions:    []string{"standard transport only", "MaxRequestBodySize left at its default (above every generated body)"},
-		RequiredProbes: []string{"fragments", "stop-early", "stop-mid-chunk", "never-touch", "read-past-eof", "chunked", "fixed-over-prefetch", "probe-after-response", "probe-pipelined", "exhaustive-stop", "hostile-body", "bad-trailer", "stall"},
+		RequiredProbes: []string{"fragments", "stop-early", "stop-mid-chunk", "never-touch", "read-past-eof", "chunked", "fixed-over-prefetch", "probe-after-response", "probe-pipelined", "exhaustive-stop", "hostile-body", "bad-trailer", "stall", "return-to-transport"},
 	}
 }
 
@@ -31,7 +31,11 @@ func RunC14(ep *core.Episode) {
 	tp := ep.Tape
 	o := SrvOpts{Stream: true}
 	o.BufSize = tp.Pick("bufsize", 4096, 8192, 16384)
-	stall := ep.Param("stall") != "off" && tp.Chance("stall", 1, 6)
+	o.ReturnToTransport = tp.Chance("returnmode", 1, 6)
+	if o.ReturnToTransport {
+		ep.Probe("return-to-transport")
+	}
+	stall := !o.ReturnToTransport && ep.Param("stall") != "off" && tp.Chance("stall", 1, 6)
 	if stall {
 		o.ReadTimeout = 50 * time.Millisecond
 		o.IdleTimeout = 10 * time.Second
